@@ -625,17 +625,18 @@ DEFAULTS = dict(measurement=None, patches=[], test_poi=1.0, test_stat='qtilde', 
 
 
 def culprit(case, d, kind):
-    """the option whose removal makes the disagreement disappear (the option that is not taking effect), or ''"""
+    """the option(s) whose removal makes the disagreement disappear (candidates for the option that is not taking effect), or ''"""
+    out = []
     for k in sorted(case):
         if k.startswith('_') or k in ('cmd', 'ws', 'ws2', 'patchset', 'via', 'out') or k not in DEFAULTS or case[k] == DEFAULTS[k]:
             continue
         c2 = {kk: v for kk, v in case.items() if kk != k}
         try:
             if differential(c2, d + '-culprit') is None:
-                return k
+                out.append(k)
         except Exception:
             continue
-    return ''
+    return '+'.join(out)
 
 
 # ----------------------------------------------------------------------------------------------------------------------
@@ -875,7 +876,7 @@ def report(ctx, case, d, res, runner='CliRunner'):
                     kind, text, det = r2
             except Exception:
                 pass
-    fact = [case['cmd'], cul] in UNCONSUMED or (not cul and any(u[0] == case['cmd'] for u in UNCONSUMED))
+    fact = any(u[0] == case['cmd'] for u in UNCONSUMED)
     if fact:
         text += ' [extracted fact: %r is parsed but never used by the command body]' % [u for u in UNCONSUMED if u[0] == case['cmd']]
     sig = '%s:%s%s' % (case['cmd'], kind, (':' + cul) if cul else '')
@@ -886,6 +887,8 @@ def report(ctx, case, d, res, runner='CliRunner'):
 
 
 def run(ctx):
+    import logging
+    logging.getLogger('pyhf').setLevel(logging.CRITICAL)
     rng = ctx.rng
     tie = None
     table = None
